@@ -119,6 +119,13 @@ const GUIDANCE_BEGINNING: &str =
 - A command that references a variable, like \\year.
 ";
 
+/// The radix reported for a decimal constant says whether a decimal fraction may follow it.
+/// After a constant that was ended by a space it may not: TeX.2021.448 looks for the point
+/// in the token that ended the digits, and that token was the space.
+fn decimal((value, ended_by_space): (i32, bool)) -> (i32, Option<u8>) {
+    (value, if ended_by_space { None } else { Some(10_u8) })
+}
+
 /// TeX.2021.440 (scan_int)
 pub(crate) fn parse_integer<S: TexlangState>(
     stream: &mut vm::ExpandedStream<S>,
@@ -126,18 +133,18 @@ pub(crate) fn parse_integer<S: TexlangState>(
     let sign = parse_optional_signs(stream)?;
     let first_token = stream.next_or_err(NumberEndOfInputError {})?;
     let (result, radix) = match first_token.value() {
-        Value::Other('0') => (parse_constant::<S, 10>(stream, 0)?, Some(10_u8)),
-        Value::Other('1') => (parse_constant::<S, 10>(stream, 1)?, Some(10_u8)),
-        Value::Other('2') => (parse_constant::<S, 10>(stream, 2)?, Some(10_u8)),
-        Value::Other('3') => (parse_constant::<S, 10>(stream, 3)?, Some(10_u8)),
-        Value::Other('4') => (parse_constant::<S, 10>(stream, 4)?, Some(10_u8)),
-        Value::Other('5') => (parse_constant::<S, 10>(stream, 5)?, Some(10_u8)),
-        Value::Other('6') => (parse_constant::<S, 10>(stream, 6)?, Some(10_u8)),
-        Value::Other('7') => (parse_constant::<S, 10>(stream, 7)?, Some(10_u8)),
-        Value::Other('8') => (parse_constant::<S, 10>(stream, 8)?, Some(10_u8)),
-        Value::Other('9') => (parse_constant::<S, 10>(stream, 9)?, Some(10_u8)),
-        Value::Other('\'') => (parse_constant::<S, 8>(stream, 0)?, Some(8_u8)),
-        Value::Other('"') => (parse_constant::<S, 16>(stream, 0)?, Some(16_u8)),
+        Value::Other('0') => decimal(parse_constant::<S, 10>(stream, 0)?),
+        Value::Other('1') => decimal(parse_constant::<S, 10>(stream, 1)?),
+        Value::Other('2') => decimal(parse_constant::<S, 10>(stream, 2)?),
+        Value::Other('3') => decimal(parse_constant::<S, 10>(stream, 3)?),
+        Value::Other('4') => decimal(parse_constant::<S, 10>(stream, 4)?),
+        Value::Other('5') => decimal(parse_constant::<S, 10>(stream, 5)?),
+        Value::Other('6') => decimal(parse_constant::<S, 10>(stream, 6)?),
+        Value::Other('7') => decimal(parse_constant::<S, 10>(stream, 7)?),
+        Value::Other('8') => decimal(parse_constant::<S, 10>(stream, 8)?),
+        Value::Other('9') => decimal(parse_constant::<S, 10>(stream, 9)?),
+        Value::Other('\'') => (parse_constant::<S, 8>(stream, 0)?.0, Some(8_u8)),
+        Value::Other('"') => (parse_constant::<S, 16>(stream, 0)?.0, Some(16_u8)),
         Value::Other('`') => (parse_character(stream)?, None),
         Value::CommandRef(command_ref) => (
             parse_internal_number(stream, first_token, command_ref)?.integer(),
@@ -333,10 +340,12 @@ impl error::EndOfInputError for CharacterError {
 
 /// TeX.2021.444-445
 // TODO: why is the radix a const parameter?
+///
+/// The second element of the result is true if a space ended the digits (and was consumed).
 fn parse_constant<S: TexlangState, const RADIX: i32>(
     stream: &mut vm::ExpandedStream<S>,
     mut result: i32,
-) -> txl::Result<i32> {
+) -> txl::Result<(i32, bool)> {
     let mut started = RADIX == 10;
     let mut too_big = false;
     loop {
@@ -376,7 +385,7 @@ fn parse_constant<S: TexlangState, const RADIX: i32>(
                 // One optional space is consumed and anything else is put back. Reading the
                 // stream again here would expand a token that \noexpand has just protected.
                 if started && matches!(next.value(), token::Value::Space(_)) {
-                    return Ok(result);
+                    return Ok((result, true));
                 }
                 stream.back(next);
                 break;
@@ -411,7 +420,7 @@ fn parse_constant<S: TexlangState, const RADIX: i32>(
         stream.error(parse::Error::new(expected, got, guidance))?;
         super::OptionalSpace::parse(stream)?;
     }
-    Ok(result)
+    Ok((result, false))
 }
 
 fn add_lsd<const RADIX: i32>(n: i32, lsd: i32) -> Option<i32> {
